@@ -136,7 +136,8 @@ Hypothesis H_set_storage : wr = true -> forall w a k v, P w -> P (set_storage w 
 Hypothesis H_set_refund : wr = true -> forall w r, P w -> P (set_refund w r).
 Hypothesis H_set_transient : wr = true -> forall w a k v, P w -> P (set_transient w a k v).
 Hypothesis H_add_log : wr = true -> forall w l, P w -> P (add_log w l).
-Hypothesis H_sd : wr = true -> forall w this ben, P w -> P (sd_effect w this ben).
+(* SELFDESTRUCT is kept apart: Ether.v also needs the theorem without it *)
+Definition sd_closed : Prop := wr = true -> forall w this ben, P w -> P (sd_effect w this ben).
 
 (* a frame the theorem covers: static, or writes are covered *)
 Definition okctx (c : ctx) : Prop := wr = true \/ c_static c = true.
@@ -286,9 +287,11 @@ Ltac wmem Hw :=
     destruct (pay_mem f ms ex) as [f1|r0] eqn:Ep;
     [apply pay_mem_inl_w in Ep | simpl; rewrite (pay_mem_inr_w _ _ _ _ Ep); exact Hw] end.
 
-Lemma exec_instr_P c f i : okctx c -> P (f_w f) -> P (out_world (exec_instr rec c f i)).
+Lemma exec_instr_P c f i :
+  (i = I_SELFDESTRUCT -> sd_closed) ->
+  okctx c -> P (f_w f) -> P (out_world (exec_instr rec c f i)).
 Proof.
-  intros Hc Hw.
+  intros H_sd Hc Hw.
   assert (Hwr : c_static c = false -> wr = true).
   { intros Es. destruct Hc as [Hc|Hc]; [exact Hc|congruence]. }
   destruct i; try (apply exec_create_P; assumption); try (apply exec_call_P; assumption);
@@ -382,13 +385,13 @@ Proof.
     destruct (c_static c) eqn:Es; [exact Hw|]. specialize (Hwr eq_refl).
     destruct (f_gas f <? _); [exact Hw|].
     destruct (charge (f_gas f) _); [|exact Hw].
-    simpl. apply (H_sd Hwr (warm_addr (f_w f) (addr_of_word b)) (c_addr c) (addr_of_word b)).
+    simpl. apply (H_sd eq_refl Hwr (warm_addr (f_w f) (addr_of_word b)) (c_addr c) (addr_of_word b)).
     auto.
 Qed.
 
-Lemma step_P c f : okctx c -> P (f_w f) -> P (out_world (step rec c f)).
+Lemma step_P c f : sd_closed -> okctx c -> P (f_w f) -> P (out_world (step rec c f)).
 Proof.
-  intros Hc Hw. unfold step.
+  intros H_sd Hc Hw. unfold step.
   destruct (stack_req _) as [pops pushes].
   destruct (_ <? pops)%nat; [exact Hw|].
   destruct (_ <? _)%nat; [exact Hw|].
@@ -396,28 +399,28 @@ Proof.
   apply exec_instr_P; auto.
 Qed.
 
-Lemma run_frame_P c w gas : okctx c -> P w -> P (r_w (run_frame rec c w gas)).
+Lemma run_frame_P c w gas : sd_closed -> okctx c -> P w -> P (r_w (run_frame rec c w gas)).
 Proof.
-  intros Hc Hw. unfold run_frame. destruct (c_code c); [exact Hw|].
+  intros H_sd Hc Hw. unfold run_frame. destruct (c_code c); [exact Hw|].
   pose proof (iter_pow_inv (step rec c) (fun f => P (f_w f)) (fun r => P (r_w r))) as H.
-  specialize (H (fun s s' Hs E => eq_ind _ (fun o => P (out_world o)) (step_P c s Hc Hs) _ E)
-                (fun s r Hs E => eq_ind _ (fun o => P (out_world o)) (step_P c s Hc Hs) _ E)
+  specialize (H (fun s s' Hs E => eq_ind _ (fun o => P (out_world o)) (step_P c s H_sd Hc Hs) _ E)
+                (fun s r Hs E => eq_ind _ (fun o => P (out_world o)) (step_P c s H_sd Hc Hs) _ E)
                 (fuel_bound gas) (init_frame w gas) Hw).
   destruct (iter_pow _ _ _); exact H.
 Qed.
 
 Lemma reachable_P c w gas f :
-  okctx c -> P w -> reachable (step rec c) (init_frame w gas) f -> P (f_w f).
+  sd_closed -> okctx c -> P w -> reachable (step rec c) (init_frame w gas) f -> P (f_w f).
 Proof.
-  intros Hc Hw Hr.
+  intros H_sd Hc Hw Hr.
   apply (reachable_pred (step rec c) (fun f => P (f_w f))) with (s0 := init_frame w gas); auto.
-  intros s s' Hs E. pose proof (step_P c s Hc Hs) as H. rewrite E in H. exact H.
+  intros s s' Hs E. pose proof (step_P c s H_sd Hc Hs) as H. rewrite E in H. exact H.
 Qed.
 End WithRec.
 
-Lemma run_P d : rec_ok (run d).
+Lemma run_P d : sd_closed -> rec_ok (run d).
 Proof.
-  induction d as [|d IH]; intros c w g Hc Hw; simpl.
+  intros H_sd. induction d as [|d IH]; intros c w g Hc Hw; simpl.
   - exact Hw.
   - apply run_frame_P; auto.
 Qed.
